@@ -31,6 +31,29 @@ theorem compute_eq (key data : List UInt8) : Hmac.compute key data = Spec.hmacSh
   simp only [two_updates_eq, keyBlock_eq, gen_opad, gen_ipad]
   rfl
 
+/-! ### the comparison loop of `verify`
+
+(T) obligations: the operators regenerated from `HmacSha256::verify` are the ones that make the
+loop an equality test — OR-accumulation of XOR differences from 0, compared with 0.  With `+=`
+(sums wrap mod 256), `^=`, `&=`, `=` … these lemmas, and with them `C08.verify`, no longer check. -/
+
+theorem gen_verifyAccInit : Gen.C08.verifyAccInit = 0 := rfl
+theorem gen_verifyAccOp : Gen.C08.verifyAccOp = "|" := by decide
+theorem gen_verifyDiffOp : Gen.C08.verifyDiffOp = "^" := by decide
+theorem gen_verifyFinalCmp : Gen.C08.verifyFinalCmp = "==" := by decide
+theorem gen_verifyFinalConst : Gen.C08.verifyFinalConst = 0 := rfl
+
+theorem accStep_eq (d e m : UInt8) :
+    Hmac.binOp Gen.C08.verifyAccOp d (Hmac.binOp Gen.C08.verifyDiffOp e m) = d ||| (e ^^^ m) := by
+  rw [gen_verifyAccOp, gen_verifyDiffOp]; rfl
+
+theorem finalTest_eq (d : UInt8) :
+    Hmac.finalTest Gen.C08.verifyFinalCmp Gen.C08.verifyFinalConst d = true ↔ d = 0 := by
+  rw [gen_verifyFinalCmp, gen_verifyFinalConst]
+  show (d.toNat == 0) = true ↔ d = 0
+  rw [beq_iff_eq]
+  exact ⟨fun h => UInt8.toNat_inj.mp h, fun h => by rw [h]; rfl⟩
+
 theorem accumulateDiff_eq_zero (d : UInt8) (es ms : List UInt8) (hl : es.length = ms.length) :
     Hmac.accumulateDiff d es ms = 0 ↔ d = 0 ∧ es = ms := by
   induction es generalizing d ms with
@@ -43,7 +66,7 @@ theorem accumulateDiff_eq_zero (d : UInt8) (es ms : List UInt8) (hl : es.length 
     | nil => simp at hl
     | cons m ms =>
       have hl' : es.length = ms.length := by simpa using hl
-      rw [Hmac.accumulateDiff, ih _ _ hl', UInt8.or_eq_zero_iff, UInt8.xor_eq_zero_iff, List.cons.injEq]
+      rw [Hmac.accumulateDiff, accStep_eq, ih _ _ hl', UInt8.or_eq_zero_iff, UInt8.xor_eq_zero_iff, List.cons.injEq]
       exact ⟨fun ⟨⟨a, b⟩, c⟩ => ⟨a, b, c⟩, fun ⟨a, b, c⟩ => ⟨⟨a, b⟩, c⟩⟩
 
 theorem verify_iff (key data mac : List UInt8) :
@@ -52,8 +75,8 @@ theorem verify_iff (key data mac : List UInt8) :
   rw [gen_hmacDigestSize]
   by_cases h : mac.length = 32
   · have hl : (Hmac.compute key data).length = mac.length := by rw [compute_eq, Spec.hmacSha256_length, h]
-    simp only [h, ne_eq, not_true_eq_false, if_false, beq_iff_eq, true_and]
-    rw [accumulateDiff_eq_zero _ _ _ hl, compute_eq]
+    simp only [h, ne_eq, not_true_eq_false, if_false, true_and]
+    rw [finalTest_eq, gen_verifyAccInit, accumulateDiff_eq_zero _ _ _ hl, compute_eq]
     exact ⟨fun ⟨_, e⟩ => e.symm, fun e => ⟨rfl, e.symm⟩⟩
   · simp [h]
 
